@@ -410,9 +410,11 @@ coalesceLoop:
 	for {
 		select {
 		case it2 := <-db.requestedIterations:
-			if it2.t == it.t {
+			if it2.t == it.t && it2.includeMemStore == it.includeMemStore {
 				iterations = append(iterations, it2)
 			} else {
+				// different table, or a different view of this table (with vs without
+				// memstore): can't share this scan
 				iterationsForOtherTables = append(iterationsForOtherTables, it2)
 			}
 		case <-time.After(db.opts.IterationCoalesceInterval):
